@@ -19,7 +19,7 @@ RULE = ("every value-taking node with unit classes of every bundled schema x eve
 ASSUMPTIONS = ["unit oracle hedmon/oracle/units.py (plural table hand-written; irregular/unclear plurals are not tested)",
                "conversion-factor literals are read with '^' == 'e', as the schema data itself does",
                "spellings with two derivations of different factor (e.g. 'uV' in 8.3.0) are excluded from the factor check"]
-MIN_MONITOR_EVALS = {"accepted-validates": 2000, "rejected-flagged": 300, "unit-first-rejected": 100, "shared-validator-agrees": 1000, "bare-number": 50, "conversion": 1500,
+MIN_MONITOR_EVALS = {"accepted-validates": 2000, "rejected-flagged": 300, "unit-first-rejected": 100, "text-before-unit-rejected": 100, "shared-validator-agrees": 1000, "bare-number": 50, "conversion": 1500,
                      "linearity": 500, "unknown-unit-none": 300}
 NUMERALS_Q = ["3", "0.5", "2.5E-2", "-7", "+4", "12.", ".5", "1e3", "0", "0.0", "-0"]
 UNIT_CODES = {"UNITS_INVALID", "VALUE_INVALID"}
@@ -164,7 +164,10 @@ def check_case(case, rec):
     elif kind == "rejected":
         rec.mon("rejected-flagged")
         if "UNITS_INVALID" not in {i["code"] for i in errs}:
-            rec.violation("oracle-rejected unit text not reported as UNITS_INVALID", case)
+            rec.violation("oracle-rejected unit text not reported as UNITS_INVALID", case,
+                          key="text-between-number-and-unit" if case.get("two_words") else None)
+        if case.get("two_words"):
+            return                   # (what the conversion does with a malformed number is not part of the property)
         rec.mon("unknown-unit-none")
         try:
             got = HedTag(text, schema).value_as_default_unit()
@@ -242,6 +245,14 @@ def run_shard(shard, rec):
             rec.case((shard.get("ns", "") + v, path, case["num"], sp, "unit-first"))
             rec.mon("unit-first-rejected")
             check_case(case, rec)
+        # text left between the number and a recognised unit (a second unit, or anything else) is bad unit text
+        for sp in (sfx if full else rng.sample(sfx, min(4, len(sfx)))):
+            for junk in ("xx", rng.choice(sfx) if sfx else "xx"):
+                case = dict(schema=v, ns=shard.get("ns", ""), node=path, kind="rejected", num=rng.choice(numerals),
+                            unit=f"{junk} {sp}", two_words=True)
+                rec.case((shard.get("ns", "") + v, path, case["num"], case["unit"], "two-words"))
+                rec.mon("text-before-unit-rejected")
+                check_case(case, rec)
         for num in numerals:
             case = dict(schema=v, ns=shard.get("ns", ""), node=path, kind="bare", num=num)
             rec.case((shard.get("ns", "") + v, path, num), nontrivial=False)
